@@ -17,10 +17,11 @@ RestArg == [rest |-> TRUE, items |-> <<>>]
 \* one plain name / two plain names: given to the bar as a string, a Note, a list or a container (the replay driver cycles the forms)
 C3 == [rest |-> FALSE, items |-> <<[t |-> "bare", n |-> <<"D">>, o |-> 0]>>]
 C4 == [rest |-> FALSE, items |-> <<[t |-> "bare", n |-> <<"F">>, o |-> 0], [t |-> "bare", n |-> <<"A","b">>, o |-> 0]>>]
+P0 == [rest |-> FALSE, items |-> <<[t |-> "pair", n |-> <<"C">>, o |-> 0], [t |-> "pair", n |-> <<"G">>, o |-> 0]>>]     \* [name, octave] pairs in the lowest octave
 E0 == [rest |-> FALSE, items |-> <<>>]          \* an empty list / an empty container: becomes an (empty) note container
 Acts(b) ==
   {[op |-> "place_notes", v |-> v, arg |-> C1] : v \in Vals} \cup
-  {[op |-> "place_notes", v |-> [b |-> 4, d |-> 0, r |-> <<1,1>>], arg |-> E0]} \cup
+  {[op |-> "place_notes", v |-> [b |-> 4, d |-> 0, r |-> <<1,1>>], arg |-> a] : a \in {E0, P0}} \cup
   {[op |-> "place_rest", v |-> v] : v \in Vals} \cup
   {[op |-> "plus", arg |-> C2]} \cup
   (IF b.entries # <<>> THEN {[op |-> "remove_last"]} ELSE {})
